@@ -5,9 +5,10 @@ import concurrent.futures
 import logging
 import random
 import threading
+import time
 import types
 
-from ..core import lean
+from ..core import lean, attach
 from ..core.baton import Sched, BLoop, Hang
 from ..core.common import Outcome, fingerprint
 from ..core.par import run_chunks, mark
@@ -40,6 +41,9 @@ RULE = ('2..3 caller threads, each with its own loop, call ensure_aw(aw, T) on o
         'pool, the spin in loop_in_thread; the label trace is replayed on the Lean model; monitor: result / exception '
         'identity, loop identity inside the awaitable, never two threads running T, handshake of loop_in_thread, every '
         'call completes (hang detector); distinct = distinct (scenario, schedule)')
+
+
+_LOCK_TYPES = (type(threading.Lock()),)
 
 
 def make_exc(c, which):
@@ -282,31 +286,40 @@ def run_case(case, seed, pct=0, choices=None):
     E = Env(S)
     E.dispatching = {}
     ENV = E
-    # whatever the module imports from threading / time for its hand-shakes is replaced by cooperative versions
-    # (an attribute that a rewrite no longer imports is simply not there to be replaced)
-    _MISSING = object()
-    saved = {k: getattr(A, k, _MISSING) for k in ('_CROSS_LOOP_POOL', '_LOOP_LOCKS', '_LOOP_LOCKS_CREATE_LOCK', 'Lock',
-                                                   'sleep', 'run_coro_ts', 'Event', 'Condition', 'Semaphore',
-                                                   'Barrier')}
-    if saved['Event'] is not _MISSING and saved['Event'] is threading.Event:
-        A.Event = lambda: CoopEvent(E)
-    A._CROSS_LOOP_POOL = CoopPool(E)
-    A._LOOP_LOCKS = LockTable()
-    A._LOOP_LOCKS.E = E
-    A._LOOP_LOCKS_CREATE_LOCK = CoopLock('create', E)
-    A.Lock = lambda: CoopLock('loop', E)
-    # `sleep(0)` is a yield: the thread runs again only when nobody else can (a strict-priority schedule would
-    # otherwise let the spin-wait of loop_in_thread starve the very thread it waits for)
-    A.sleep = lambda d: (S.point('spin.sleep', yield_=True) if not d else
-                         S.point('spin.sleep', enabled=lambda: False, deadline=S.vt + d))
+    # whatever the module uses from threading / time / asyncio for its hand-shakes is replaced by cooperative versions,
+    # found by identity (however the module spells its imports); its module-level pool, lock table and table lock are
+    # found by what they are
+    real_rcts = asyncio.run_coroutine_threadsafe
 
     def rcts(coro, loop):
         me = threading.current_thread().name
         S.point('run_coroutine_threadsafe')
         if me.startswith('C'):
             E.labels.append(f'sch:{int(me[1:])}')
-        return saved['run_coro_ts'](coro, loop)
-    A.run_coro_ts = rcts
+        return real_rcts(coro, loop)
+
+    # `sleep(0)` is a yield: the thread runs again only when nobody else can (a strict-priority schedule would
+    # otherwise let the spin-wait of loop_in_thread starve the very thread it waits for)
+    def coop_sleep(d):
+        return (S.point('spin.sleep', yield_=True) if not d else
+                S.point('spin.sleep', enabled=lambda: False, deadline=S.vt + d))
+    inst = {}
+    pools = [k for k, v in vars(A).items() if isinstance(v, concurrent.futures.ThreadPoolExecutor)]
+    tables = [k for k, v in vars(A).items() if type(v) is dict and not k.startswith('__') and 'lock' in k.lower()]
+    tlocks = [k for k, v in vars(A).items() if isinstance(v, _LOCK_TYPES)]
+    if len(pools) != 1 or len(tables) != 1 or len(tlocks) != 1:
+        raise attach.AttachError(f'aiuti.asyncio: expected one module-level thread pool, one per-loop lock table and one '
+                                 f'lock guarding it; found {pools}, {tables}, {tlocks}')
+    inst[pools[0]] = CoopPool(E)
+    inst[tables[0]] = LockTable()
+    inst[tables[0]].E = E
+    inst[tlocks[0]] = CoopLock('create', E)
+    saved = {k: getattr(A, k) for k in inst}
+    for k, v in inst.items():
+        setattr(A, k, v)
+    attach.substitute(A, [(threading.Lock, lambda: CoopLock('loop', E)), (threading.Event, lambda: CoopEvent(E)),
+                          (time.sleep, coop_sleep), (real_rcts, rcts)],
+                      (threading, time, asyncio))
     T = Target(S)
     T.E = E
     mode = case['mode']
@@ -401,12 +414,9 @@ def run_case(case, seed, pct=0, choices=None):
         S.spawn('M', manager)
         S.run(wall_timeout=20)
     finally:
+        attach.restore(A)
         for k, v in saved.items():
-            if v is _MISSING:
-                if hasattr(A, k):
-                    delattr(A, k)
-            else:
-                setattr(A, k, v)
+            setattr(A, k, v)
     # 'own' mode: labels of the own-loop caller are not part of the model (inline branch)
     out = dict(labels=E.labels, res=res, info=info, hung=S.hung, errors=S.errors, trace=S.trace,
                max_running=E.max_running)
